@@ -243,6 +243,36 @@ MUTANTS: List[Dict] = [
     M("store4-append-any", "breaking", SCFG, "            else:\n                jt.append(new_name)\n", "            if new_name not in jt:\n                jt.append(new_name)\n", ["STORE-4"], "the close-the-graph special case folded into a generic append"),
     M("ord1-keys-view-intersection", "breaking", SCFG, "                return [k for k in out if k in self.graph]\n", "                return list(self.graph.keys() & out)\n", ["ORD-1"]),
     M("ord1-fromkeys-tainted", "breaking", TR, "    for name in sorted(loop):\n", "    for name in dict.fromkeys([*exiting_blocks, *backedge_blocks]):\n", ["ORD-1"]),
+    M("iter1-lifo", "breaking", SCFG, "            name = to_visit.popleft()\n", "            name = to_visit.pop()\n", ["ITER-1"], "depth-first: an item can come before all of its predecessors' siblings; order changes"),
+    M("iter1-no-seen-add", "breaking", SCFG, "            if name in seen:\n                continue\n            else:\n                seen.add(name)\n", "            if name in seen:\n                continue\n", ["ITER-1"], "join blocks are yielded once per incoming path; loops never end"),
+    M("iter1-region-header-targets", "breaking", SCFG, "                to_visit.extend(block.subregion[block.exiting].jump_targets)\n", "                to_visit.extend(block.subregion[block.header].jump_targets)\n", ["ITER-1"]),
+    M("iter1-no-descend", "breaking", SCFG, "                yield from block.subregion\n", "                pass\n", ["ITER-1"], "blocks inside regions are never yielded"),
+    M("ok-iter-seen-set", "benign", SCFG, "            seen: list[str] = []\n", "            seen: list[str] = list()\n", []),
+    M("ok-lower9-star", "benign", AT, "                return block.tree[:-1] + [if_node]\n", "                return [*block.tree[:-1], if_node]\n", []),
+    M("ok-join-elif", "benign", SCFG, "            return solo_tail_name, solo_exit_name\n\n        if len(tails) == 1 and len(exits) >= 2:", "            return solo_tail_name, solo_exit_name\n\n        elif len(tails) == 1 and len(exits) >= 2:", [], "if -> elif between the first two cases"),
+    M("ok-join-returns-early", "benign", SCFG, "        if len(return_nodes) > 1:\n            return_solo_name = self.name_gen.new_block_name(SYNTH_RETURN)\n            self.insert_SyntheticReturn(return_solo_name, return_nodes, [])\n", "        if len(return_nodes) <= 1:\n            return\n        return_solo_name = self.name_gen.new_block_name(SYNTH_RETURN)\n        self.insert_SyntheticReturn(return_solo_name, return_nodes, [])\n", [], "early return instead of a guarded block"),
+    M("ok-iter-deque", "benign", SCFG, "            name = to_visit.pop(0)\n", "            name = to_visit.pop(0)  # FIFO\n", []),
+    M("ok-latch-arm-local", "benign", AT, "            assert len(block.jump_targets) == 1\n            assert len(block.backedges) == 1\n", "            assert len(block.jump_targets) == 1 and len(block.backedges) == 1\n", []),
+    M("ok-namegen-get", "benign", SCFG, """        if kind in self.kinds.keys():
+            idx = self.kinds[kind]
+            name = str(kind) + "_block_" + str(idx)
+            self.kinds[kind] = idx + 1
+        else:
+            idx = 0
+            name = str(kind) + "_block_" + str(idx)
+            self.kinds[kind] = idx + 1
+        return name
+""", """        idx = self.kinds.get(kind, 0)
+        name = f"{kind}_block_{idx}"
+        self.kinds[kind] = idx + 1
+        return name
+""", [], "single-path rewrite of the generator with .get and an f-string"),
+    M("ok-type-is-region", "benign", TR, "        if isinstance(entry, RegionBlock):\n            entry = update_exiting(entry, region_header, region_name)\n", "        if type(entry) is RegionBlock:\n            entry = update_exiting(entry, region_header, region_name)\n", []),
+    M("ok-edges-list-call", "benign", SCFG, "            edges[key] = [i for i in value._jump_targets]\n", "            edges[key] = list(value._jump_targets)\n", []),
+    M("ok-sorted-subgraph-loop", "benign", SCFG, "        for inside in subgraph:\n", "        for inside in sorted(subgraph):\n", []),
+    M("ok-dispatch-reorder", "benign", AT, "        elif isinstance(node, ast.If):\n            self.handle_if(node)\n        elif isinstance(node, ast.While):\n            self.handle_while(node)\n", "        elif isinstance(node, ast.While):\n            self.handle_while(node)\n        elif isinstance(node, ast.If):\n            self.handle_if(node)\n", []),
+    M("ok-codegen-isinstance-return", "benign", AT, "            elif (\n                block.fallthrough\n                and block.tree\n                and type(block.tree[-1]) is ast.Return\n            ):", "            elif (\n                block.fallthrough\n                and len(block.tree) > 0\n                and type(block.tree[-1]) is ast.Return\n            ):", []),
+    M("ok-rename-propagator", "benign", TR, None, None, [], "update_exiting renamed everywhere (computed edit)"),
     # ------------------------------------------------ benign
     M("ok-rename-locals", "benign", TR, None, None, [], "rename locals of loop_restructure_helper (computed edit)"),
     M("ok-sorted-key", "benign", TR, "    for name in sorted(loop):\n", "    for name in sorted(loop, key=str):\n", []),
